@@ -22,7 +22,7 @@ RULE = (
     "identity checks at every boundary (inside: current_action() is the action; after leaving, by any path: it is the "
     "object observed immediately before entry; None at the end), and in facet 'scopes' the observed forest equals the "
     "model (every message/action is a child of the scope it was created in; start_task always a new tree; context-less "
-    "messages are their own task). Non-trivial: depth >= 2 with a non-`with` construct below top level, or an exception "
+    "messages are their own task, and a destination sees no current action while one is delivered). Non-trivial: depth >= 2 with a non-`with` construct below top level, or an exception "
     "crossing >= 2 scopes, or a re-entered ancestor. Distinct = canonical JSON of the case."
 )
 ASSUMPTIONS = [
@@ -32,11 +32,28 @@ ASSUMPTIONS = [
 
 
 def check_scopes(case):
-    run = P.run_program(case["program"], sink="memory")
+    from eliot import current_action
+
+    seen = []
+
+    def probe(message):
+        # what a destination sees as the current action while a message is delivered
+        seen.append(current_action())
+
+    run = P.run_program(case["program"], sink="memory", destinations=lambda observer: [probe, observer])
     require(not run.errors, "api-raised", lambda: repr(run.errors))
     require(not run.context_errors, "context-not-restored", lambda: "; ".join(run.context_errors[:4]))
     compare_forest(run, run.messages)
-    return stats_info(run)
+    info = stats_info(run)
+    if len(seen) == len(run.messages):
+        lonely = 0
+        for m, cur in zip(run.messages, seen):
+            if m["task_level"] == [1] and "action_status" not in m:
+                # logged with no current action: no scoping construct is open while it is delivered either
+                lonely += 1
+                require(cur is None, "context-while-no-action", lambda: "current_action() was %r while the context-less message %r was delivered" % (cur, m.get("message_type")))
+        info["context-less-messages"] = lonely
+    return info
 
 
 def check_raising_logger(case):
